@@ -1,6 +1,7 @@
 package rules
 
 import (
+	"go/token"
 	"fmt"
 	"go/types"
 	"sort"
@@ -37,6 +38,8 @@ var (
 )
 
 func runC47(k *eng.Check, tier string) {
+	checkCaseInsensitiveCompares(k)
+
 	c := k.C
 
 	// the holding directory name
@@ -341,5 +344,49 @@ func runC47(k *eng.Check, tier string) {
 	sort.Strings(seen)
 	if len(seen) < 1 {
 		k.Unknown("purge-route", "PurgeDroppedDatabases", "callers of the provider purge method", "none found (floor 1): "+strings.Join(seen, ","))
+	}
+}
+
+// checkCaseInsensitiveCompares: the helpers that decide "a database of this name already exists / was dropped"
+// compare names case-insensitively on BOTH sides (restore must never overwrite an existing database whose name
+// differs only in case).  A string equality in these helpers is either strings.EqualFold or an ==/!= whose two
+// operands are both folded with the same strings.ToLower/ToUpper.
+func checkCaseInsensitiveCompares(k *eng.Check) {
+	c := k.C
+	isFold := func(name string) func(ssa.Value) bool {
+		return func(v ssa.Value) bool {
+			cc, ok := v.(*ssa.Call)
+			return ok && eng.CalleeName(cc) == name
+		}
+	}
+	for _, name := range []string{"libraries/doltcore/sqle.hasCaseInsensitivePath", "libraries/doltcore/sqle.hasCaseInsensitiveMatch"} {
+		fn := k.Fn(name)
+		if fn == nil {
+			continue
+		}
+		nCmp := 0
+		for _, f := range eng.WithAnons(fn) {
+			nCmp += len(eng.Calls(f, eng.Static("strings.EqualFold"), false))
+			for _, in := range eng.Instrs(f, func(in ssa.Instruction) bool {
+				b, ok := in.(*ssa.BinOp)
+				if !ok || (b.Op != token.EQL && b.Op != token.NEQ) {
+					return false
+				}
+				bt, ok := b.X.Type().Underlying().(*types.Basic)
+				return ok && bt.Info()&types.IsString != 0
+			}) {
+				b := in.(*ssa.BinOp)
+				nCmp++
+				lower := eng.Mentions(b.X, isFold("strings.ToLower")) && eng.Mentions(b.Y, isFold("strings.ToLower"))
+				upper := eng.Mentions(b.X, isFold("strings.ToUpper")) && eng.Mentions(b.Y, isFold("strings.ToUpper"))
+				k.Require("name-compare-case-insensitive", eng.Name(f)+"#string-equality", "a name comparison in the exists/dropped lookup helpers folds case on both sides", lower || upper, c.InstrPos(in),
+					"string equality with at most one side case-folded: a name differing only in case is not recognised as a collision")
+			}
+		}
+		if nCmp < 1 {
+			k.Unknown("name-compare-case-insensitive", name, "name comparison", "no EqualFold call or string equality found")
+		} else {
+			k.Pass("name-compare-case-insensitive", name, "all name comparisons are case-insensitive on both sides", nCmp)
+		}
 	}
 }
